@@ -1,5 +1,6 @@
 import WebpVerif.Spec.Prefix
 import WebpVerif.Spec.Lossless
+import WebpVerif.Spec.CodeLengths
 import WebpVerif.Model.Huffman
 import WebpVerif.Model.Util
 namespace DrvHuf
@@ -63,6 +64,16 @@ def handle (args : List String) : Option String :=
     let n ← n.toNat?; let ls ← parseNats lengths
     let bytes ← if hex == "-" then some #[] else parseHex hex
     some (specReply n ls bytes ++ " ;; " ++ modelReply ls n bytes)
+  | ["rcl", alphabet, hex] => do
+    -- one serialised prefix code: the executable specification's reader against its
+    -- proof-friendly twin (for which C04.code_lengths_parse_back is proved)
+    let alphabet ← alphabet.toNat?
+    let bytes ← if hex == "-" then some #[] else parseHex hex
+    let a := VP8L.readCode { data := bytes, pos := 0 } alphabet
+    let b := readCodeL alphabet (bitsOf bytes)
+    let sa := match a with | none => "none" | some (c, bb) => s!"{joinNats c.toList} used={bb.pos}"
+    let sb := match b with | none => "none" | some (c, rest) => s!"{joinNats c} used={8 * bytes.size - rest.length}"
+    some (if sa == sb then "agree " ++ sa else "DIFFER spec=" ++ sa ++ " twin=" ++ sb)
   | _ => none
 
 end DrvHuf
